@@ -527,6 +527,15 @@ class UserActions(object):
     # Replace negative ids that may refer to rows just added to this table in this bundle.
     row_ids = self._engine.out_actions.summary.translate_new_row_ids(table_id, row_ids)
 
+    # A row named more than once is handled inconsistently below: prepare_new_values (two-way
+    # references) and trim_update_action compare every occurrence with the stored value, while the
+    # doc action applies them in order, so that the last one wins. Keep only that last occurrence.
+    if len(set(row_ids)) != len(row_ids):
+      last = {row_id: i for i, row_id in enumerate(row_ids)}
+      keep = sorted(last.values())
+      row_ids = [row_ids[i] for i in keep]
+      columns = {col_id: [values[i] for i in keep] for col_id, values in columns.items()}
+
     # Convert passed-in values to the column's correct types (or alttext, or errors) and trim any
     # unchanged values.
     action, extra_actions = self._engine.convert_action_values(
